@@ -182,6 +182,12 @@ def sysRates (vars : σ → α) (rs : List (Reaction σ α)) (keys? : Option (Li
   | none => sysRatesNoFeed vars rs keys?
   | some cs => addFeed vars (sysRatesNoFeed vars rs keys?) cs
 
+/-- the default stirred-tank description built by `get_odesys(rsys, cstr=True)` (ode.py:197-201):
+    `("feedratio", OrderedDict([(sk, "fc_" + sk) for sk in rsys.substances]))` — EVERY substance of the system is fed,
+    whatever kind of object (`Substance`, `Species` of any phase, …) it is. -/
+def defaultCstr (frKey : σ) (feedName : σ → σ) (substanceKeys : List σ) : Cstr σ :=
+  { frKey := frKey, fc := substanceKeys.map fun sk => (sk, feedName sk) }
+
 /-- reading of a rate dictionary as a function on substances: an absent key contributes zero -/
 def valueAt (d : List (σ × α)) (s : σ) : α := dgetD d s ((0 : Nat) : α)
 
@@ -402,6 +408,19 @@ def constructorAccepts [DecidableEq α] (subs : Substances σ α) (rs : List (Re
     (match checkBalance subs rs false with
      | .ok => true
      | _ => false)
+
+/-- the constructor with the documented options `checks=` / `dont_check=` (reactionsystem.py:116-121):
+    `checks = self.default_checks ^ (dont_check or set())` resp. the given `checks`; each selected check is run with
+    `throw=True`.  `doBalance` / `doKeys`: whether `balance` / `substance_keys` are among the selected checks; `dupOk`: joint
+    outcome of the selected ones of `duplicate`, `duplicate_names` (not modelled).  The selection is a function of the
+    arguments of THIS call only — the class attribute `default_checks` is read, never written. -/
+def constructorChecks [DecidableEq α] (doBalance doKeys : Bool) (subs : Substances σ α) (rs : List (Reaction σ ρ))
+    (dupOk : Bool) : Bool :=
+  (!doKeys || checkSubstanceKeys subs rs) && dupOk &&
+    (!doBalance ||
+      (match checkBalance subs rs false with
+       | .ok => true
+       | _ => false))
 
 /-- one row of `composition_balance_vectors`: `[s.composition.get(k, 0) for s in subs]` -/
 def balanceRow (key : Int) : Substances σ α → Except Err (List α)
